@@ -30,6 +30,7 @@ struct sqfs_data_reader_t {
 	sqfs_u8 *data_block;
 	size_t data_blk_size;
 	sqfs_u64 current_block;
+	sqfs_u32 current_block_word;
 
 	sqfs_u8 *frag_block;
 	size_t frag_blk_size;
@@ -98,11 +99,20 @@ fail:
 static int precache_data_block(sqfs_data_reader_t *data, sqfs_u64 location,
 			       sqfs_u32 size)
 {
-	if (data->data_block != NULL && data->current_block == location)
+	/*
+	 * The size word is part of the key: it determines how many bytes are
+	 * read and whether they are unpacked, so the same location with a
+	 * different size word (possible in a corrupted image) is not the
+	 * same block.
+	 */
+	if (data->data_block != NULL && data->current_block == location &&
+	    data->current_block_word == size) {
 		return 0;
+	}
 
 	free(data->data_block);
 	data->current_block = location;
+	data->current_block_word = size;
 
 	return get_block(data, location, size, data->block_size,
 			 &data->data_blk_size, &data->data_block);
